@@ -55,7 +55,7 @@ var c10Alphabet = []string{
 	"edit-last",     // edit-comment targeting the most recent comment
 	"edit-unknown",  // edit-comment with a target that is no operation of the bug
 	"edit-noncomm",  // edit-comment targeting a title/status/label (or metadata/no-op/edit) operation
-	"title",         // set-title (sometimes to the current title)
+	"title",         // set-title (sometimes to the current title; entity API: sometimes as another clone wrote it, `was` not the title in force)
 	"status",        // set-status (toggle; sometimes to the current status)
 	"labels",        // bug.ChangeLabels (checked variant)
 	"labels-forced", // bug.ForceChangeLabels: duplicates, removal of absent labels, add+remove of the same label
@@ -171,6 +171,7 @@ type c10Plan struct {
 	files   []repository.Hash
 	target  entity.Id
 	title   string
+	was     string // title: non-empty = the operation is built as another clone would have written it, against this (stale) title
 	close   bool
 	add     []string
 	remove  []string
@@ -236,6 +237,10 @@ func c10MakePlan(st c10Step, pos int, env *c10Env, model *refmodel.BugState, ops
 		if arg%5 == 0 {
 			p.title = model.Title // no change
 		}
+		if arg%4 == 1 {
+			// a retitle written concurrently in another clone and merged in: the title it replaced is not the one in force
+			p.was = fmt.Sprintf("title seen elsewhere %d", arg%3)
+		}
 	case "status":
 		closed := model.Status == "closed"
 		p.close = !closed
@@ -295,7 +300,14 @@ func c10ApplyEntity(b bug.Interface, author identity.Interface, t int64, p c10Pl
 	case "edit-last", "edit-unknown", "edit-noncomm":
 		_, _, err = bug.EditComment(b, author, t, p.target, p.message, p.files, nil)
 	case "title":
-		_, err = bug.SetTitle(b, author, t, p.title, nil)
+		if p.was != "" {
+			op := bug.NewSetTitleOp(author, t, p.title, p.was)
+			if err = op.Validate(); err == nil {
+				b.Append(op)
+			}
+		} else {
+			_, err = bug.SetTitle(b, author, t, p.title, nil)
+		}
 	case "status":
 		if p.close {
 			_, err = bug.Close(b, author, t, nil)
